@@ -133,7 +133,7 @@ contract('Environments.SpaceWorld.__init__',
          modifies=['self.id', 'self.model', 'field:self.components', 'self.tag', 'field:self.agents', 'self.width',
                    'self.height', 'self.depth', 'self.wrap_env', 'self._index_offset',
                    'new:dict[cls,ref:Component]', 'new:dict[str,ref:Agent]'],
-         modes=['int', 'real'], props=['C08', 'C04'])
+         modes=['int', 'real'], use='inline', props=['C08', 'C04'])
 
 
 def position_init_post(self, agent, model, x, y, z):
@@ -266,3 +266,100 @@ contract('Environments.SpaceWorld.get_agents_at',
          ensures={'C12': [get_agents_at_post]},
          modifies=['new:list[ref:Agent]'],
          modes=['int', 'real'], props=['C12'])
+
+
+# ------------------------------------------------------------------------------------------------ grid worlds (C09-C11)
+fields_of('DataFrame', pos='list[tuple[int,int,int]]', cols='dict[str,list[any]]')
+fields_of('Row', df='ref:DataFrame', idx='int')
+REG.frame_tags.update({'pos': ['C09', 'C11'], 'cols': ['C11'], 'dict[str,list[any]]': ['C11'], 'list[any]': ['C11'],
+                       'list[tuple[int,int,int]]': ['C09', 'C11'], 'df': ['C09'], 'idx': ['C09']})
+
+
+def cell_id(x, y, z, W, H):
+    """C09: row-major id with single-layer (zero-extent) axes counted as extent 1."""
+    return (z * max(H, 1) + y) * max(W, 1) + x
+
+
+def pos_to_id_post(x, y, width, z, height, result):
+    return result == cell_id(x, y, z, width, height)
+
+
+contract('Environments.discrete_grid_pos_to_id',
+         params={'x': 'int', 'y': 'int', 'width': 'int', 'z': 'int', 'height': 'int'}, returns='int',
+         ensures={'C09': [pos_to_id_post], 'C10': [pos_to_id_post]},
+         use='inline', props=['C09', 'C10'])
+
+
+def id_in_range(x, y, z, W, H, D):
+    """(a) in-range coordinates give ids in 0 .. cells-1."""
+    return implies(0 <= x and x < max(W, 1) and 0 <= y and y < max(H, 1) and 0 <= z and z < max(D, 1)
+                   and W >= 0 and H >= 0 and D >= 0,
+                   0 <= cell_id(x, y, z, W, H) and cell_id(x, y, z, W, H) < max(W, 1) * max(H, 1) * max(D, 1))
+
+
+def id_injective(x, y, z, x2, y2, z2, W, H, D):
+    """(a) distinct in-range coordinates give distinct ids."""
+    return implies(0 <= x and x < max(W, 1) and 0 <= y and y < max(H, 1) and 0 <= z and z < max(D, 1)
+                   and 0 <= x2 and x2 < max(W, 1) and 0 <= y2 and y2 < max(H, 1) and 0 <= z2 and z2 < max(D, 1)
+                   and W >= 0 and H >= 0 and D >= 0
+                   and cell_id(x, y, z, W, H) == cell_id(x2, y2, z2, W, H),
+                   x == x2 and y == y2 and z == z2)
+
+
+lemma('cell_id_in_range', ['C09'], id_in_range,
+      params={'x': 'int', 'y': 'int', 'z': 'int', 'W': 'int', 'H': 'int', 'D': 'int'})
+lemma('cell_id_injective', ['C09'], id_injective,
+      params={'x': 'int', 'y': 'int', 'z': 'int', 'x2': 'int', 'y2': 'int', 'z2': 'int', 'W': 'int', 'H': 'int',
+              'D': 'int'})
+
+
+def Grid_rep(self):
+    """The position table holds, at every cell id, that cell's coordinates (row-major, single layers as 1)."""
+    W = self.width
+    H = self.height
+    D = self.depth
+    pos = self.cells.pos
+    return (self._index_offset == 1 and W >= 0 and H >= 0 and D >= 0
+            and len(pos) == max(D, 1) * max(H, 1) * max(W, 1)
+            and all(pos[cell_id(x, y, z, W, H)] == (x, y, z)
+                    for z in range(max(D, 1)) for y in range(max(H, 1)) for x in range(max(W, 1))))
+
+
+def discrete_init_post(self, model, width, height, depth, id, wrap_env, old):
+    return (self.width == width and self.height == height and self.depth == depth and self.wrap_env == wrap_env
+            and self.id == id and self.model is model and len(self.agents) == 0 and len(self.cells.cols) == 0)
+
+
+def nonneg_extents(self, model, width, height, depth, id, wrap_env):
+    return width >= 0 and height >= 0 and depth >= 0
+
+
+contract('Environments.DiscreteWorld.__init__',
+         params={'self': 'ref:DiscreteWorld', 'model': 'ref:Model', 'width': 'int', 'height': 'int', 'depth': 'int',
+                 'id': 'str', 'wrap_env': 'bool'},
+         requires=[nonneg_extents],
+         ensures={'C09': [discrete_init_post, Grid_rep], 'C08': [discrete_init_post, InWorld]},
+         modifies=['self.id', 'self.model', 'field:self.components', 'self.tag', 'field:self.agents', 'self.width',
+                   'self.height', 'self.depth', 'self.wrap_env', 'self._index_offset', 'self.cells',
+                   'new:dict[cls,ref:Component]', 'new:dict[str,ref:Agent]', 'new:obj:DataFrame',
+                   'new:list[tuple[int,int,int]]', 'new:dict[str,list[any]]'],
+         native=False, props=['C09', 'C08'])
+
+
+def get_cell_post(self, x, y, z, result):
+    """(c) the row of exactly that cell (all columns, assumed iloc contract)."""
+    return result.df is self.cells and result.idx == cell_id(x, y, z, self.width, self.height)
+
+
+def get_cell_outside(self, x, y, z, old):
+    """(d) rejected iff some coordinate is outside the grid (zero-extent axes hold the single layer 0)."""
+    return (x < 0 or x >= max(self.width, 1) or y < 0 or y >= max(self.height, 1)
+            or z < 0 or z >= max(self.depth, 1))
+
+
+contract('Environments.DiscreteWorld.get_cell',
+         params={'self': 'ref:DiscreteWorld', 'x': 'int', 'y': 'int', 'z': 'int'}, returns='ref:Row',
+         requires=[Grid_rep],
+         ensures={'C09': [get_cell_post]},
+         raises={'IndexError': dict(when=get_cell_outside)},
+         modifies=['new:obj:Row'], native=False, props=['C09'])
